@@ -14,6 +14,7 @@ from crosshair.tracers import COMPOSITE_TRACER
 from crosshair.util import UnexploredPath, IgnoreAttempt, CrossHairInternal, NotDeterministic
 from crosshair.condition_parser import condition_parser
 from crosshair.options import AnalysisKind
+from crosshair.libimpl import builtinslib as _bl
 
 STATS = dict(queries=0, sat=0, unsat=0, unknown=0, solver_s=0.0)
 _orig_is_sat = ss.solver_is_sat
@@ -57,7 +58,7 @@ def make_symbolic(annotation, name, rng=None):
     if annotation is bool:
         return bl.SymbolicBool(name)
     if annotation is float:
-        return bl.make_float(name, float)
+        return bl.PreciseIeeeSymbolicFloat(name, float)    # exact IEEE-754 double (z3 FP 11 53), NaN/inf included
     if annotation is str:
         return bl.LazyIntSymbolicStr(name)
     return proxy_for_type(annotation, name)
@@ -109,6 +110,8 @@ def explore(fn, consts, budget_s, classify=None, seed=0, nsamples=3, path_timeou
             analysis = None
             try:
                 with StateSpaceContext(space), COMPOSITE_TRACER, NoTracing():
+                    # every float of the path (inputs and coerced constants) is an exact IEEE-754 double
+                    space.extra(_bl.ModelingDirector).global_representations[float] = _bl.PreciseIeeeSymbolicFloat
                     args = {}
                     for n, p in sig.parameters.items():
                         if n in consts:
